@@ -103,6 +103,13 @@ def cmp_val(real, ref, path="ret"):
             return ["%s: expected a Mask, got %s" % (path, type(real).__name__)]
         rf = np.asarray(real.primal_flag())
         ef = np.asarray(ref.flag)
+        if ef.shape == () and rf.shape != ():
+            # a scalar outer flag folded into vectorised inner flags (mask of a
+            # vmapped mask): all-or-nothing
+            if bool(ef):
+                ef = np.broadcast_to(ef, rf.shape)
+            else:
+                return [] if not rf.any() else ["%s.flag: %s vs %s" % (path, rf, ef)]
         if rf.shape != ef.shape or not np.array_equal(rf.astype(bool), ef.astype(bool)):
             return ["%s.flag: %s vs %s" % (path, rf, ef)]
         if ef.shape == ():
